@@ -29,6 +29,9 @@ def budget(tier):
     return {'shards': 16, 'examples': 12000, 'wall': 2400}
 
 
+MIB = 1 << 20
+
+
 @st.composite
 def cases(draw):
     kind = draw(st.sampled_from(['suffix', 'suffix', 'suffix', 'edit', 'edit', 'edit', 'resync', 'resync', 'resync', 'keys', 'keys', 'repo']))
@@ -58,6 +61,12 @@ def cases(draw):
         mn -= 1
     dkind = draw(st.sampled_from(['prng', 'prng', 'zeros', 'period', 'few']))
     n = draw(st.integers(0, 14 * mx))
+    if kind == 'suffix' and draw(st.integers(0, 24)) == 0:
+        # streams handed over as pieces of a MiB and more (replicat reads files in 16 MiB pieces)
+        mx = draw(st.sampled_from([256, 1024, 4096, 65536]))
+        mn = draw(st.sampled_from([1, mx // 16, mx // 2]))
+        n = draw(st.sampled_from([MIB + 5, MIB + 4 * mx, 2 * MIB + 8, 3 * MIB + 1, 2 * max(2 * mx, MIB) + 12]))
+        dkind = draw(st.sampled_from(['prng', 'prng', 'period']))
     c = {'kind': kind, 'max': mx, 'min': mn, 'kseed': kseed, 'dseed': dseed, 'dkind': dkind, 'len': n}
     if kind == 'suffix':
         c['p1'] = draw(st.integers(0, mx)) * 4
@@ -65,6 +74,8 @@ def cases(draw):
         c['pseed'] = draw(st.integers(0, 999))
         c['pkind'] = draw(st.sampled_from(['prng', 'zeros', 'same']))
         def cutlist():
+            if n >= MIB:
+                return sorted(draw(st.lists(st.one_of(st.integers(0, n + 4 * mx), st.sampled_from([MIB, 2 * MIB, n - MIB])), max_size=3)))
             if draw(st.booleans()):
                 step = draw(st.sampled_from([1, 1, 2, 3, 5, mx, mx + 1]))
                 step = max(step, (n + 4 * mx) // 600 + 1)
@@ -142,6 +153,8 @@ def run_case(case):
                 lst.append(len(S))
         common = sorted(set(s1) & set(s2))
         classes.append('segmented' if seg else 'single-piece')
+        if len(S) >= MIB:
+            classes.append('piece>=1MiB')
         classes.append('data:' + case['dkind'])
         if not common:
             return Outcome(fail('no-common-boundary', 'the streams do not even share their end'), classes)
